@@ -423,7 +423,10 @@ DString * textbundle_create(DString * body, mmd_engine * e, const char * directo
 	}
 
 	// Add main document
-	DString * temp = d_string_new(e->dstr->str);
+	// Copy by length -- token offsets refer to the whole source, which may
+	// contain a NUL (e.g. when it was imported from ITMZ/OPML)
+	DString * temp = d_string_new("");
+	d_string_append_c_array(temp, e->dstr->str, e->dstr->currentStringLength);
 
 	sub_asset_paths(temp, e);
 
